@@ -327,7 +327,9 @@ func Session(c Cookie, host string, now time.Time, r *rand.Rand) *sessions.Sessi
 	if c.Grace >= 0 {
 		s.GracePeriodStart = now.Add(-time.Duration(c.Grace) * world.U)
 		if c.Grace > GraceK {
-			s.GracePeriodStart = s.GracePeriodStart.Add(-time.Duration(r.Intn(3)) * world.U)
+			// "beyond the bound" is one class: just beyond, or many grace periods ago (a start the session never
+			// refreshed since - nothing but a successful check may restart the clock)
+			s.GracePeriodStart = s.GracePeriodStart.Add(-time.Duration([]int{0, 1, 2, 6, 10, 40}[r.Intn(6)]) * world.U)
 		}
 	}
 	switch {
